@@ -348,4 +348,5 @@ def run(ctx):
                 "blocks with padded VLQ fields, random wire messages of all 9 kinds and mutants; a case is non-trivial "
                 "when the implementation accepted the bytes (distinct by content)" % (maxlen, top - 1, n_mut))
     res.exhaustive = False
+    kit.optimised_interpreter_probe(res, "codec")
     return res
